@@ -775,6 +775,23 @@ func (c GeneratorContext) addLocalVar(name string) (GeneratorContext, error) {
 	return GeneratorContext{am: newAm, cm: c.cm}, nil
 }
 
+// reserve returns a context in which n additional, unnamed stack slots are
+// marked as used. It is used while generating the arguments of a call: when
+// argument i is evaluated, the arguments 0..i-1 (and the receiver of a method
+// call) are already pushed to the stack, so a local variable created in
+// argument i must not be placed in one of these slots.
+func (c GeneratorContext) reserve(n int) GeneratorContext {
+	if n == 0 {
+		return c
+	}
+	newAm := make(argsList, len(c.am), len(c.am)+n)
+	copy(newAm, c.am)
+	for i := 0; i < n; i++ {
+		newAm = append(newAm, fmt.Sprintf("\x00%d", len(newAm)))
+	}
+	return GeneratorContext{am: newAm, cm: c.cm}
+}
+
 type Func[V any] func(Stack[V]) (V, error)
 
 func (f Func[V]) Eval(args ...V) (V, error) {
@@ -1130,7 +1147,7 @@ func (g *FunctionGenerator[V]) GenerateFunc(ast parser2.AST, gc GeneratorContext
 				if fun.argsNumberNotMatching(len(a.Args)) {
 					return nil, false, id.Error(fun.argsNumberNotMatchingError(id.Name, len(a.Args)))
 				}
-				argsFuncList, pure, err := g.genFuncList(a.Args, gc)
+				argsFuncList, pure, err := g.genArgList(a.Args, gc, 0)
 				if err != nil {
 					return nil, false, err
 				}
@@ -1150,7 +1167,7 @@ func (g *FunctionGenerator[V]) GenerateFunc(ast parser2.AST, gc GeneratorContext
 		if err != nil {
 			return nil, false, g.generateStaticFunctionDocu(err)
 		}
-		argsFuncList, aPure, err := g.genFuncList(a.Args, gc)
+		argsFuncList, aPure, err := g.genArgList(a.Args, gc, 0)
 		if err != nil {
 			return nil, false, err
 		}
@@ -1181,7 +1198,8 @@ func (g *FunctionGenerator[V]) GenerateFunc(ast parser2.AST, gc GeneratorContext
 			return nil, false, err
 		}
 		name := a.Name
-		argsFuncList, aPure, err := g.genFuncList(a.Args, gc)
+		// the receiver is pushed before the arguments are evaluated
+		argsFuncList, aPure, err := g.genArgList(a.Args, gc, 1)
 		if err != nil {
 			return nil, false, err
 		}
@@ -1198,6 +1216,7 @@ func (g *FunctionGenerator[V]) GenerateFunc(ast parser2.AST, gc GeneratorContext
 						if theFunc.argsNumberNotMatching(len(argsFuncList)) {
 							return zero, a.Error(theFunc.argsNumberNotMatchingError(name, len(argsFuncList)))
 						}
+						st.Push(value)
 						for _, argFunc := range argsFuncList {
 							v, err := argFunc(st, cs)
 							if err != nil {
@@ -1288,12 +1307,23 @@ func (g *FunctionGenerator[V]) createClosureLiteralFunc(a *parser2.ClosureLitera
 }
 
 func (g *FunctionGenerator[V]) genFuncList(a []parser2.AST, gc GeneratorContext) ([]ParserFunc[V], bool, error) {
+	return g.genArgList(a, gc, -1)
+}
+
+// genArgList generates the code for the arguments of a call. If pushed>=0, the
+// arguments are pushed to the stack one after the other, and pushed values are
+// already on the stack when the first argument is evaluated.
+func (g *FunctionGenerator[V]) genArgList(a []parser2.AST, gc GeneratorContext, pushed int) ([]ParserFunc[V], bool, error) {
 	args := make([]ParserFunc[V], len(a))
 	pure := true
 	for i, arg := range a {
 		var err error
 		var p bool
-		args[i], p, err = g.GenerateFunc(arg, gc)
+		argGc := gc
+		if pushed >= 0 {
+			argGc = gc.reserve(pushed + i)
+		}
+		args[i], p, err = g.GenerateFunc(arg, argGc)
 		if err != nil {
 			return nil, false, err
 		}
